@@ -206,7 +206,7 @@ impl Env {
   /// Makes the ord server index the node's tip.
   pub fn sync(&self) -> anyhow::Result<()> {
     let want = self.core.height() + 1;
-    for _ in 0..200 {
+    for _ in 0..3000 {
       let r = self.http.get(format!("{}/update", self.server_url)).send()?;
       let n: u64 = r.text()?.trim().parse().unwrap_or(0);
       if n >= want {
